@@ -389,7 +389,7 @@ pub fn property() -> Property {
         title: "Registry names and integers correspond one-to-one with the IANA assignments",
         rule: "for each of the 16 registry enumerations: every integer of a scan window (quick ±2^18, thorough ±2^24) plus the 64-bit extremes through from_i64/to_i64/is_private, \
                the set of (name, integer) found compared for equality with the transcribed IANA table; every integer of [-70000, 70000] through RegisteredLabel / RegisteredLabelWithPrivate decoding \
-               and through the typed positions (header alg, crit, content type; key kty, alg, key_ops; claim key); generated: random 64-bit integers, texts, styled encodings; \
+               and through the typed positions (header alg, crit, content type; key kty, alg, key_ops; claim key); generated: random 64-bit integers, texts (incl. registered names), several related text labels in one claims / header / key map (all kept, in order, and encodable again), styled encodings; \
                non-trivial = integer assigned, adjacent to an assigned one, or within 2 of -65536; distinct by (registry, integer)",
         assumptions: &["the IANA tables in harness/src/registry.rs are a hand transcription of the registries the crate cites at its snapshot dates (trusted base; no network to re-fetch)"],
         exhaustive_domains: &[
